@@ -238,6 +238,12 @@ func init() {
 			}
 			return c
 		},
+		"vTier": func(fr *frame, fn *ssa.Function, args []value) value {
+			if fr.in.cfg.Tier == "thorough" {
+				return fr.in.ts.BV(64, 1)
+			}
+			return fr.in.ts.BV(64, 0)
+		},
 		"vSymbolic": func(fr *frame, fn *ssa.Function, args []value) value { return fr.in.ts.True },
 		"vNote": func(fr *frame, fn *ssa.Function, args []value) value {
 			if os.Getenv("GOSYM_DEBUG") != "" {
